@@ -69,7 +69,8 @@ def model_values(ob):
 
 
 def _verify_one(args):
-    qualname, timeout_ms, use_cvc5, mutate = args
+    qualname, timeout_ms, use_cvc5, mutate = args[:4]
+    shard, nshards = (args[4], args[5]) if len(args) > 5 else (0, 1)
     try:
         import z3  # noqa: F401
         from pyvc.verifier import Engine
@@ -85,7 +86,9 @@ def _verify_one(args):
                 eng.inline_ok.add(q)
         rep = eng.verify(qualname)
         obs = []
-        for ob in rep.obligations:
+        for oi, ob in enumerate(rep.obligations):
+            if oi % nshards != shard:
+                continue
             eng.discharge(ob, use_cvc5=use_cvc5)
             obs.append({
                 "name": ob.name, "kind": ob.kind, "props": ob.props, "func": ob.func, "verdict": ob.verdict,
@@ -102,14 +105,36 @@ def _verify_one(args):
                 "paths": 0, "time": 0, "digest": None, "obligations": [], "assumptions": [], "variants": 0}
 
 
-def verify_functions(qualnames, timeout_ms=10000, use_cvc5=True, procs=None, mutate=None):
-    jobs = [(q, timeout_ms, use_cvc5, mutate) for q in qualnames]
+def verify_functions(qualnames, timeout_ms=10000, use_cvc5=True, procs=None, mutate=None, shards=None):
+    """shards: {qualname: n} -- the obligations of that function are discharged by n processes (each re-runs the
+    symbolic execution, which is cheap compared with solving)"""
+    shards = shards or {}
+    jobs = []
+    for q in qualnames:
+        n = shards.get(q, 1)
+        for k in range(n):
+            jobs.append((q, timeout_ms, use_cvc5, mutate, k, n))
     procs = procs or min(14, max(1, len(jobs)))
     if procs == 1 or len(jobs) == 1:
-        return [_verify_one(j) for j in jobs]
-    ctx = mp.get_context("fork")
-    with ctx.Pool(procs) as pool:
-        return pool.map(_verify_one, jobs, chunksize=1)
+        raw = [_verify_one(j) for j in jobs]
+    else:
+        ctx = mp.get_context("fork")
+        with ctx.Pool(procs) as pool:
+            raw = pool.map(_verify_one, jobs, chunksize=1)
+    merged = {}
+    for r in raw:
+        m = merged.get(r["func"])
+        if m is None:
+            merged[r["func"]] = r
+            continue
+        m["obligations"].extend(r["obligations"])
+        m["time"] = max(m["time"], r["time"])
+        for a in r["assumptions"]:
+            if a not in m["assumptions"]:
+                m["assumptions"].append(a)
+        if r["status"] != "ok" and m["status"] == "ok":
+            m["status"], m["reason"] = r["status"], r["reason"]
+    return [merged[q] for q in qualnames if q in merged]
 
 
 if __name__ == "__main__":
